@@ -42,10 +42,11 @@ type Case struct {
 	ReadSizes []int     `json:"read_sizes"` // consumer buffer sizes (Reader entry)
 	EOFWith   bool      `json:"eof_with_data"`
 	Yield     bool      `json:"yield"`
+	ReuseBuf  bool      `json:"reuse_buffer,omitempty"` // the producer refills one buffer for every Write (io.Copy, bufio, http.ServeContent do)
 	HTTP      *HTTPCase `json:"http,omitempty"`
 }
 
-const rule = "cases = (input of one of the six media types incl. inputs the minifier rejects, entry point, partition of the stream into chunks incl. empty and 1-byte chunks, reader behaviour (EOF with/after data, zero-length reads), consumer read sizes, Gosched pacing; for HTTP: request path/extension/query, Content-Type with parameters or absent, stale Content-Length, explicit or implicit WriteHeader); oracle = byte equality (and error-text equality) with the plain m.Minify(reader->writer) call; all 2^(n-1) partitions are enumerated for inputs of <= 10 bytes; runs under the race detector; non-trivial = (>=3 chunks or a wrapper entry point) and output differs from input"
+const rule = "cases = (input of one of the six media types incl. inputs the minifier rejects, entry point, partition of the stream into chunks incl. empty and 1-byte chunks, reader behaviour (EOF with/after data, zero-length reads), consumer read sizes, Gosched pacing; for HTTP: request path/extension/query, Content-Type with parameters or absent, stale Content-Length, explicit or implicit WriteHeader; for the writer-side entry points a producer that hands every chunk in one reused buffer and overwrites it when Write has returned); whether the middleware has to minify is decided by the plain call on the same media type (ErrNotExist or not), not by Match; oracle = byte equality (and error-text equality) with the plain m.Minify(reader->writer) call; all 2^(n-1) partitions are enumerated for inputs of <= 10 bytes; runs under the race detector; non-trivial = (>=3 chunks or a wrapper entry point) and output differs from input"
 
 var registry = mk.Full(mk.Opts{})
 
@@ -196,8 +197,11 @@ func check(c Case) (out []byte, err error) {
 		var sink bytes.Buffer
 		mw := registry.Writer(c.Mediatype, &sink)
 		var werr error
+		prod := producer{reuse: c.ReuseBuf}
 		for _, ch := range splitChunks(priv, c.Chunks) {
-			if _, e := mw.Write(ch); e != nil {
+			_, e := mw.Write(prod.next(ch))
+			prod.done()
+			if e != nil {
 				werr = e
 				break
 			}
@@ -243,8 +247,10 @@ func checkHTTP(c Case, in, _ []byte, _ error) ([]byte, error) {
 		if h.ExplicitWrite {
 			w.WriteHeader(http.StatusOK)
 		}
+		prod := producer{reuse: c.ReuseBuf}
 		for _, ch := range splitChunks(in, c.Chunks) {
-			w.Write(append([]byte{}, ch...))
+			w.Write(prod.next(ch))
+			prod.done()
 			if c.Yield {
 				runtime.Gosched()
 			}
@@ -267,8 +273,10 @@ func checkHTTP(c Case, in, _ []byte, _ error) ([]byte, error) {
 	if mt == "" {
 		mt = mime.TypeByExtension(path.Ext(h.Path))
 	}
-	_, _, matched := registry.Match(mt)
-	if matched == nil {
+	// whether a minifier serves the type is decided by the plain call (it reports ErrNotExist), not by Match, which is
+	// the function the middleware itself uses
+	_, refErr := reference(mt, nil)
+	if refErr == minify.ErrNotExist {
 		if !bytes.Equal(got, in) {
 			return got, fmt.Errorf("%s: no minifier for %q: body must pass through unchanged, got %q", c.Entry, mt, clip(got))
 		}
@@ -285,6 +293,33 @@ func checkHTTP(c Case, in, _ []byte, _ error) ([]byte, error) {
 		return got, fmt.Errorf("%s: stale Content-Length %q survived (body is %d bytes)", c.Entry, rec.Header().Get("Content-Length"), len(got))
 	}
 	return got, nil
+}
+
+// producer hands out the chunks of a response the way io.Copy or a bufio.Writer does: with reuse set, every chunk is
+// copied into one buffer, and the buffer is overwritten as soon as Write has returned (io.Writer: "Write must not
+// retain p")
+type producer struct {
+	reuse bool
+	buf   []byte
+	last  []byte
+}
+
+func (p *producer) next(ch []byte) []byte {
+	if !p.reuse {
+		return append([]byte{}, ch...)
+	}
+	if cap(p.buf) < len(ch) {
+		p.buf = make([]byte, len(ch), 2*len(ch)+16)
+	}
+	p.last = p.buf[:len(ch)]
+	copy(p.last, ch)
+	return p.last
+}
+
+func (p *producer) done() {
+	for i := range p.last {
+		p.last[i] = '#'
+	}
 }
 
 func clip(b []byte) string {
@@ -343,6 +378,7 @@ func genCase(t *rapid.T) Case {
 	}
 	c.EOFWith = rapid.Bool().Draw(t, "eofwith")
 	c.Yield = rapid.Bool().Draw(t, "yield")
+	c.ReuseBuf = rapid.IntRange(0, 2).Draw(t, "reusebuf") == 0
 	if strings.Contains(c.Entry, "Middleware") || c.Entry == "ResponseWriter" {
 		h := &HTTPCase{}
 		dir := rapid.SampledFrom([]string{"/", "/a/", "/a.b/c/", "/x.css/"}).Draw(t, "dir")
@@ -379,7 +415,13 @@ func record(c Case, out []byte) {
 	if nChunks(c) >= 3 {
 		cls = append(cls, "chunks>=3")
 	}
+	if c.ReuseBuf && (c.Entry == "Writer" || c.HTTP != nil) && nChunks(c) >= 2 {
+		cls = append(cls, "producer-reuses-buffer")
+	}
 	if c.HTTP != nil {
+		if mt := c.HTTP.ContentType; strings.Contains(mt, ";") || mt == "" && (strings.HasSuffix(strings.ToLower(c.HTTP.Path), ".js") || strings.HasSuffix(c.HTTP.Path, ".xml")) {
+			cls = append(cls, "http:type-with-parameters")
+		}
 		if c.HTTP.ContentType == "" {
 			cls = append(cls, "http:no-content-type")
 		}
